@@ -2,6 +2,7 @@ package main
 
 import (
 	"bytes"
+	"runtime"
 	"compress/gzip"
 	"encoding/json"
 	"fmt"
@@ -109,6 +110,36 @@ func stream(r io.Reader, cap int, rng *rand.Rand) (recs []fastaRec, closes int, 
 	}
 }
 
+// slowReader hands the text out a line (or less) at a time and yields in between, so that the consumer gets
+// to run while input is still arriving (back-pressure in the middle of the stream)
+type slowReader struct {
+	data []byte
+	rng  *rand.Rand
+}
+
+func (s *slowReader) Read(p []byte) (int, error) {
+	if len(s.data) == 0 {
+		return 0, io.EOF
+	}
+	n := bytes.IndexByte(s.data, '\n') + 1
+	if n <= 0 || n > len(p) {
+		n = len(s.data)
+		if n > len(p) {
+			n = len(p)
+		}
+	}
+	if s.rng.Intn(3) == 0 && n > 1 {
+		n = 1 + s.rng.Intn(n)
+	}
+	copy(p, s.data[:n])
+	s.data = s.data[n:]
+	runtime.Gosched()
+	if s.rng.Intn(4) == 0 {
+		time.Sleep(time.Duration(20+s.rng.Intn(200)) * time.Microsecond)
+	}
+	return n, nil
+}
+
 // readAll runs one reader variant over the text
 func readVia(via string, text []byte, cap int, rng *rand.Rand) (recs []fastaRec, closes int, panicMsg string) {
 	switch via {
@@ -125,12 +156,14 @@ func readVia(via string, text []byte, cap int, rng *rand.Rand) (recs []fastaRec,
 	case "streamgz":
 		zr, _ := gzip.NewReader(bytes.NewReader(gz(text)))
 		return stream(zr, cap, rng)
+	case "streamslow":
+		return stream(&slowReader{data: text, rng: rand.New(rand.NewSource(int64(len(text) + cap)))}, cap, rng)
 	default:
 		return stream(bytes.NewReader(text), cap, rng)
 	}
 }
 
-var c13Vias = []string{"parse", "read", "readgz", "stream", "streamgz"}
+var c13Vias = []string{"parse", "read", "readgz", "stream", "streamgz", "streamslow", "streamslow"}
 
 func c13Replay(c json.RawMessage) Verdict {
 	var cs struct {
@@ -231,7 +264,7 @@ func c13Record(tier string, seed int64, emit func(interface{})) {
 		}
 		written := toRecs(recs)
 		via := c13Vias[rng.Intn(len(c13Vias))]
-		cap := []int{0, 0, 1, 2, 7, 100, 1000}[rng.Intn(7)]
+		cap := []int{0, 0, 1, 2, 3, 7, 100, 1000}[rng.Intn(8)]
 		// (a) the library's own writer, then a reader
 		text := fasta.Build(recs)
 		if via == "read" && rng.Intn(2) == 0 {
